@@ -26,7 +26,7 @@ def be_class(be):
 
 def is_stack(cfg): return be_class(cfg["be"]) in ("stack", "stackn", "empty")
 def is_heap(cfg): return cfg["be"] == "heap"
-def is_resizable(cfg): return cfg["be"] in ("heap", "reloc")
+def is_resizable(cfg): return be_class(cfg["be"]) in ("heap", "reloc")
 def any_cfg(cfg): return True
 
 # families -> (generator name, leak_free?)  leak_free: at the end of the case nothing may be alive
@@ -42,9 +42,9 @@ PROPS = {
     "C17": dict(families=["parts"], keys=["out", "ret", "len", "cap", "snap", "ev_user", "ev_alloc"],
                 cfgs=lambda c: c["be"] in ("heap", "empty"), release=False, leak_free=True),
     "C05": dict(families=["elem", "range", "clone", "capacity", "random"], keys=["out", "ev_backend", "snap", "raw"],
-                cfgs=lambda c: c["be"] in ("reloc", "heap"), release=False, leak_free=True),
+                cfgs=lambda c: be_class(c["be"]) in ("reloc", "heap"), release=False, leak_free=True),
     "C06": dict(families=["fuse", "liar"], keys=["out", "ret", "len", "snap", "ev_user"],
-                cfgs=lambda c: (c["be"] in ("heap", "reloc") and c["sz"] in (0, 3, 8, 24, 160)) or (c["be"] in ("stack:72", "stackn:4:96", "stack:0") and c["sz"] == 24),
+                cfgs=lambda c: (be_class(c["be"]) in ("heap", "reloc") and c["sz"] in (0, 3, 8, 24, 160)) or (c["be"] in ("stack:72", "stackn:4:96", "stack:0") and c["sz"] == 24),
                 release=False, leak_free=False),
     "C07": dict(families=["forget"], keys=["out", "ret", "len", "snap", "ev_user"], cfgs=any_cfg,
                 release=False, leak_free=False),
